@@ -44,7 +44,9 @@ DEV_SIG = {'devAgg': ('C18/SvsInst/TimerFire/SuppressionDecision/devAgg',
                         'local_sv, then TypeError - on_missing_data is not called although an entry was raised')}
 
 
-MAX_DIAG = 40
+MAX_DIAG = 40           # rejected executions diagnosed field by field per judge() call
+MAX_SUSPECTS = 40       # stage B stops after this many executions no graph successor explains
+MAX_JUDGED = 400        # executions handed to one judge() call in stage B (shortest first)
 LAST_JUDGE = {'unexplained': 0, 'accepted': 0}   # of the last judge() call: not explained at all / accepted by the pure spec
 DEV_OF = {'devAgg': 'aggLocal', 'devNoSeq': 'noSeq'}     # choice name -> member of the constant Dev
 
@@ -199,6 +201,7 @@ class Cover:
         self.suspects = []            # recorded executions to be judged by SvsTrace
         self.steps = 0
         self.paths = 0
+        self.new_pairs = 0            # (state, stimulus) pairs first attempted by the last path
         self.dev_hits = {}
         self.stims = {}               # state -> {stim key: (event, [edge index])}
         self._usable = {}
@@ -262,6 +265,7 @@ class Cover:
             # every graph state that explains the observations so far
             curs = {init}
             earlier = 0
+            self.new_pairs = 0
             while len(evs) < max_len:
                 key = self.next_stimulus(curs)
                 if key is None:
@@ -270,6 +274,8 @@ class Cover:
                 ev = next(self.stims[s][key][0] for s in sorted(curs) if key in self.stims[s])
                 for s in curs:
                     if key in self.stims[s]:
+                        if (s, key) not in self.attempted:
+                            self.new_pairs += 1
                         self.attempted.add((s, key))
                         self.todo[s].discard(key)
                         self._usable.pop(s, None)
@@ -281,7 +287,12 @@ class Cover:
                 exact = [(s, k) for (s, k) in cands
                          if not diff(obs, proj_state(g.state[g.edges[s][k][2]]), C18_FIELDS + SYNC_FIELDS)]
                 if not exact:
-                    # no successor of the graph explains the observation: let the open specification decide
+                    # no successor of the graph explains the observation: let the open specification decide.
+                    # Edges of this stimulus that were taken before are not reliable ways to travel any more
+                    # (otherwise a tree that misbehaves only sometimes could be walked into for ever).
+                    for (s, k) in cands:
+                        self.covered.discard((s, k))
+                        self._usable.pop(s, None)
                     self.suspects.append({'cfg': {'init': st0['selfSeq'], 't0': st0['timer']}, 'ev': list(evs)})
                     break
                 self.covered.update(exact)
@@ -321,10 +332,14 @@ def stage_b(ctx):
         inits = sorted(g.init)
         bgs = []
         idle = 0
-        while idle < len(inits) and (budget is None or cov.steps < budget):
+        # termination: every path must try at least one new (state, stimulus) pair; the walk also ends after
+        # MAX_SUSPECTS unexplained executions (a broken tree fails everywhere for a few reasons) and after
+        # 4 steps per pair (a clean tree needs about 2)
+        max_steps = 4 * cov.n_stimuli if budget is None else budget
+        while idle < 2 * len(inits) + 2 and cov.steps < max_steps and len(cov.suspects) < MAX_SUSPECTS:
             init = inits[cov.paths % len(inits)]
             evs, bg = cov.run_path(init, 60)
-            idle = idle + 1 if not evs else 0
+            idle = idle + 1 if cov.new_pairs == 0 else 0
             if not evs:
                 continue
             bgs += bg
@@ -348,8 +363,11 @@ def stage_b(ctx):
                                               'edges_taken': len(cov.covered)})
         if bgs:
             ctx.note('B: background exceptions in the loop (not judged by C18): %s' % sorted(set(bgs))[:3])
+        if len(cov.suspects) >= MAX_SUSPECTS:
+            ctx.note('B: stopped after %d unexplained executions' % len(cov.suspects))
         if cov.suspects:
-            judge(ctx, cov.suspects, nodes, 2, 10, 32768, 'c18-b%d' % ms, maxseq=ms + 1)
+            cov.suspects.sort(key=lambda r: len(r['ev']))
+            judge(ctx, cov.suspects[:MAX_JUDGED], nodes, 2, 10, 32768, 'c18-b%d' % ms, maxseq=ms + 1)
             n_ok = LAST_JUDGE['accepted']
             if n_ok:
                 ctx.note('B: %d executions left the impl-resolved graph but are behaviours of the open spec' % n_ok)
@@ -553,6 +571,9 @@ def stage_c(ctx):
         fnd = judge(ctx, recs[b:b + batch], NODES5, sup, sync, rstep, 'c18-c')
         total['dev'] += sum(1 for f in fnd if f['dev'])
         total['rej'] += LAST_JUDGE['unexplained']
+        if total['rej'] >= MAX_DIAG and b + batch < len(recs):
+            ctx.note('C: %d executions rejected so far; the remaining %d are not judged' % (total['rej'], len(recs) - b - batch))
+            break
     ctx.traces += len(recs)
     ctx.evaluations += sum(len(r['ev']) for r in recs)
     ctx.note('C: %d executions, %d events; steps explained only by a named deviation: %d; rejected executions: %d' % (
